@@ -69,6 +69,23 @@ func verifH_SrvHandlerOps() {
 	wantTlr := metadata.MD{}
 	hdrSent := false
 	msgs := 0
+	attempts := 0
+	if verifBool("carrierBreaks") {
+		// the carrier fails from now on (scenario checked separately: the wire checks below assume delivery)
+		car.failSend, car.sendErr = true, errors.New("carrier broke")
+		for i := 0; i < 2; i++ {
+			err := st.SendMsg(&wrapperspb.BytesValue{Value: []byte{byte(i)}})
+			if i == 0 {
+				verifAssert(err != nil, "C04.send-on-a-broken-carrier-fails")
+			}
+			if !serverStreams && i == 1 {
+				verifCover("retry-after-failed-send")
+				verifAssert(err != nil && len(car.sent) == 0, "C16.second-send-refused-even-after-a-failed-first")
+			}
+		}
+		return
+	}
+	_ = attempts
 	for i := 0; i < nops; i++ {
 		switch verifChoice("op", 5) {
 		case 0:
